@@ -3,6 +3,7 @@
 import HtpModel.Lemmas.Ring
 import HtpModel.Lemmas.TableSim
 import HtpModel.Lemmas.Builder
+import HtpModel.Lemmas.Prims
 
 namespace Htp.C17
 open Htp.Ring
@@ -228,6 +229,101 @@ theorem C17_builder_sim_fresh (ops : List BOp) : runB Builder.create ops = runBS
 
 example : runB Builder.create [.append (b!"ab"), .appendC [0x63, 0x00, 0x64], .size, .toStr, .clear, .size, .toStr]
     = [.unit, .unit, .num 2, .str (b!"abc"), .unit, .num 0, .str []] := by decide
+end
+
+/-! ### string and number primitives equal their mathematical definitions (proofs in Lemmas/Prims.lean) -/
+section
+open Htp.Gen Htp.Bstr Htp.Num
+
+/-- bstr_util_cmp_mem returns 0 exactly for equal byte strings -/
+theorem C17_cmp_eq_zero_iff (a b : Bytes) : cmpMem a b = 0 ↔ a = b := by
+  first | exact prim_cmp_eq_zero_iff .. | (apply prim_cmp_eq_zero_iff <;> assumption)
+
+/-- the three-way result is antisymmetric -/
+theorem C17_cmp_antisymm (a b : Bytes) : cmpMem b a = - cmpMem a b := by
+  first | exact prim_cmp_antisymm .. | (apply prim_cmp_antisymm <;> assumption)
+
+/-- the case-insensitive comparison is the exact comparison of the lower-cased strings -/
+theorem C17_cmp_nocase_eq (a b : Bytes) : cmpMemNocase a b = cmpMem (lower a) (lower b) := by
+  first | exact prim_cmp_nocase_eq .. | (apply prim_cmp_nocase_eq <;> assumption)
+
+/-- the NUL-skipping comparison ignores the NUL bytes of its first argument and nothing else -/
+theorem C17_cmp_norzero_eq (a b : Bytes) : cmpMemNocaseNorzero a b = cmpMemNocase (a.filter (· != 0)) b := by
+  first | exact prim_cmp_norzero_eq .. | (apply prim_cmp_norzero_eq <;> assumption)
+
+/-- bstr_begins_with_mem is the prefix relation -/
+theorem C17_begins_with_iff (hay needle : Bytes) : beginsWithMem hay needle = true ↔ needle <+: hay := by
+  first | exact prim_begins_with_iff .. | (apply prim_begins_with_iff <;> assumption)
+
+/-- the case-insensitive prefix test is the exact test on the lower-cased strings -/
+theorem C17_begins_with_nocase_eq (hay needle : Bytes) : beginsWithMemNocase hay needle = beginsWithMem (lower hay) (lower needle) := by
+  first | exact prim_begins_with_nocase_eq .. | (apply prim_begins_with_nocase_eq <;> assumption)
+
+/-- bstr_util_mem_index_of_mem returns the LEAST offset below the haystack's length at which the needle matches, and none iff there is no such offset -/
+theorem C17_index_of_some (hay needle : Bytes) (r : Nat) (h : indexOfMem hay needle = some r) :
+    r < hay.length ∧ needle <+: hay.drop r ∧ ∀ j, j < r → ¬ needle <+: hay.drop j := by
+  first | exact prim_index_of_some .. | (apply prim_index_of_some <;> assumption)
+
+theorem C17_index_of_none (hay needle : Bytes) (h : indexOfMem hay needle = none) :
+    ∀ j, j < hay.length → ¬ needle <+: hay.drop j := by
+  first | exact prim_index_of_none .. | (apply prim_index_of_none <;> assumption)
+
+/-- bstr_chr returns the index of the first occurrence -/
+theorem C17_chr_eq (b : Bytes) (c : UInt8) : chr b c = b.findIdx? (· == c) := by
+  first | exact prim_chr_eq .. | (apply prim_chr_eq <;> assumption)
+
+/-- bstr_to_lowercase / bstr_chop / bstr_add_mem_noex -/
+theorem C17_lowercase_length (b : Bytes) : (toLowercase b).length = b.length := by
+  first | exact prim_lowercase_length .. | (apply prim_lowercase_length <;> assumption)
+
+theorem C17_add_noex_prefix (cap : Nat) (dst src : Bytes) (h : dst.length ≤ cap) :
+    (addMemNoex cap dst src) = dst ++ src.take (cap - dst.length) ∧ (addMemNoex cap dst src).length ≤ cap := by
+  first | exact prim_add_noex_prefix .. | (apply prim_add_noex_prefix <;> assumption)
+
+/-- **C17 (number parsing)**: for a non-empty string of digits of the base whose positional value fits, bstr_util_mem_to_pint returns
+    exactly that value and reports the whole string as consumed (lastlen = length + 1, as the C code documents). -/
+theorem C17_pint_digits (base : Nat) (hb : 0 < base) (c : UInt8) (cs : Bytes)
+    (hd : ∀ x ∈ c :: cs, ∃ d, digitVal x = some d ∧ d < base) (hfit : valueOf base (c :: cs) 0 ≤ INT64_MAX') :
+    memToPint (c :: cs) base = (((valueOf base (c :: cs) 0 : Nat) : Int), (c :: cs).length + 1) := by
+  first | exact prim_pint_digits .. | (apply prim_pint_digits <;> assumption)
+
+/-- a byte that is not a digit of the base ends the number: nothing before it -> -1, otherwise the value so far and its offset -/
+theorem C17_pint_no_digit (base : Nat) (c : UInt8) (cs : Bytes) (h : ∀ d, digitVal c = some d → d ≥ base) :
+    memToPint (c :: cs) base = (-1, 0) := by
+  first | exact prim_pint_no_digit .. | (apply prim_pint_no_digit <;> assumption)
+
+/-- **C17 (integer with surrounding blanks)**: optional blanks, a non-empty digit string of the base whose value fits, optional blanks:
+    htp_parse_positive_integer_whitespace returns exactly the positional value. -/
+theorem C17_ppiw_value (base : Nat) (hb : 0 < base) (ws1 ws2 : Bytes) (c : UInt8) (cs : Bytes)
+    (h1 : ∀ x ∈ ws1, isLws x = true) (h2 : ∀ x ∈ ws2, isLws x = true)
+    (hd : ∀ x ∈ c :: cs, ∃ d, digitVal x = some d ∧ d < base) (hfit : valueOf base (c :: cs) 0 ≤ INT64_MAX') :
+    parsePositiveIntegerWhitespace (ws1 ++ (c :: cs) ++ ws2) base = ((valueOf base (c :: cs) 0 : Nat) : Int) := by
+  first | exact prim_ppiw_value .. | (apply prim_ppiw_value <;> assumption)
+
+/-- **C17 (chunk length)**: control bytes, then a non-empty run of hexadecimal digits, then anything that does not continue the run:
+    htp_parse_chunked_length returns the hexadecimal value of the run when it fits in 31 bits and -1 when it is larger (and fits in 63). -/
+theorem C17_chunked_length_value (ctl : Bytes) (c : UInt8) (cs rest : Bytes)
+    (hctl : ∀ x ∈ ctl, isChunkedCtl x = true) (hc0 : isChunkedCtl c = false)
+    (hd : ∀ x ∈ c :: cs, isHexDigitC x = true) (hrest : ∀ w ws, rest = w :: ws → isHexDigitC w = false)
+    (hfit : valueOf 16 (c :: cs) 0 ≤ INT64_MAX') :
+    (parseChunkedLength (ctl ++ (c :: cs) ++ rest)).1 =
+      if valueOf 16 (c :: cs) 0 > INT32_MAX' then -1 else ((valueOf 16 (c :: cs) 0 : Nat) : Int) := by
+  first | exact prim_chunked_length_value .. | (apply prim_chunked_length_value <;> assumption)
+
+/-- **C17 (Content-Length value)**: anything that is not a decimal digit, then a non-empty run of decimal digits whose value fits, then
+    either the end or a byte that is not a decimal digit: htp_parse_content_length returns the value of that first run. -/
+theorem C17_content_length_value (pre : Bytes) (c : UInt8) (cs post : Bytes)
+    (hpre : ∀ x ∈ pre, (x.toNat < 48 || x.toNat > 57) = true)
+    (hd : ∀ x ∈ c :: cs, ∃ d, digitVal x = some d ∧ d < 10) (hfit : valueOf 10 (c :: cs) 0 ≤ INT64_MAX')
+    (hpost : ∀ w ws, post = w :: ws → ∀ d, digitVal w = some d → d ≥ 10) :
+    parseContentLength (pre ++ (c :: cs) ++ post) = ((valueOf 10 (c :: cs) 0 : Nat) : Int) :=
+  prim_content_length_value pre c cs post hpre hd hfit hpost
+
+example : memToPint (b!"1234") 10 = (1234, 5) ∧ memToPint (b!"ff") 16 = (255, 3) ∧ memToPint (b!"x1") 10 = (-1, 0) := by decide
+example : parsePositiveIntegerWhitespace (b!" \t 1f \t") 16 = 31 := by decide
+example : (parseChunkedLength (b!"\t1A;ext")).1 = 26 := by decide
+example : parseContentLength (b!" 42; x") = 42 := by decide
+
 end
 
 end Htp.C17
